@@ -8,8 +8,9 @@ USES_GEN = True
 ASSUMPTIONS = [
     "proper and improper lists of atoms and nested lists (vectors inside lists are outside the claim: equal? compares "
     "vectors by identity); map takes exactly one list; fold-left / fold-right are minischeme's ((f elem acc))",
-    "the procedures written in Scheme (base.sld) are executed by the model's evaluator on the text that is in /repo now; "
-    "their contracts are checked against an independent model on python lists, not proved (see level note)",
+    "the procedures written in Scheme (base.sld) are proved about the text that is in /repo now (Gen/BaseSld.v, Proofs/Lib*.v); the "
+    "higher-order ones for procedure arguments without side effects; this check additionally compares model, implementation "
+    "and an independent model on python lists",
 ]
 TRUSTED_EXTRA = ["Model/Builtins.v models the native car cdr cons eqv? apply; base.sld is input to the model, read from /repo"]
 
